@@ -203,6 +203,16 @@ def extractFull (blocks : List DT) (dtypeArg : Option DT) (fill : FillArg) (c : 
   | .error _ => .error .overflow
   | .ok d => if blocks.all (fun a => canCast c a d) then .ok d else .error .typeError
 
+/-- reference semantics of `ndarray.astype` / `np.copyto(casting="same_kind" | "unsafe")` on INTEGER
+values (validated against numpy, op `dt castv`): an integer target wraps around (two's complement),
+`bool` is the non-zero test; float / complex targets round and are not modelled (`none`) -/
+def castInt (d : DT) (v : Int) : Option Int :=
+  match d.kind with
+  | .u => some (v % 2 ^ d.bits)
+  | .i => some ((v + 2 ^ (d.bits - 1)) % 2 ^ d.bits - 2 ^ (d.bits - 1))
+  | .b => some (if v = 0 then 0 else 1)
+  | _ => none
+
 /-- the value written where no block is present -/
 inductive FillV where
   | nan | zero | given
